@@ -41,6 +41,17 @@ int main() {
           bool same = (a != a && b != b) || memcmp(&a, &b, sizeof a) == 0;
           if (!same || oa != ob) printf("BAD %s on %s (tuple %d): C returns %.17g, masa_eval_%s<double> returns %.17g%s\n", c.sym, sol.c_str(), t, a, c.fn, b, oa != ob ? " (stdout differs)" : "");
         }
+        // evaluators that take a user function: eight distinct function pointers, three rounds, each call compared -- the wrapper must
+        // forward the pointer it was given, whatever it was given before
+        if (strchr(c.sig, 'F')) {
+          static double (*const CBS[])(double) = {[](double x) { return 2.75 + 0.25 * x; }, [](double x) { return 3.5 + 0.125 * x; }, [](double x) { return 1.25 + 0.5 * x; }, [](double x) { return 4.0 + 0.0625 * x * x; },
+                                                  [](double x) { return 2.0 + 1.0 / (1.0 + x * x); }, [](double x) { return 5.5 - 0.03125 * x; }, [](double) { return 3.75; }, [](double x) { return 0.75 + 0.375 * x; }};
+          for (int round = 0; round < 3; round++) for (int k = 0; k < 8; k++) {
+            ApiArgs A; for (int q = 0; q < 4; q++) A.s[q] = T[round % 3][q]; A.i = 1; A.fd = CBS[(k * (round + 1)) % 8]; A.fl = 0;
+            double a = 0, b = 0; capture([&] { a = c.call(A); }); capture([&] { b = e->cd(A); }); n++;
+            if (!((a != a && b != b) || memcmp(&a, &b, sizeof a) == 0)) { printf("BAD %s on %s: with user function #%d (round %d) C returns %.17g, masa_eval_%s<double> returns %.17g\n", c.sym, sol.c_str(), (k * (round + 1)) % 8, round, a, c.fn, b); break; }
+          }
+        }
       }
       // non-evaluator wrappers on this solution: name (canary-filled buffer), dimension, every parameter through both views,
       // display text, statuses of sanity/purge/init_param, every vector through get_array
